@@ -121,6 +121,11 @@ func (tb *LTable) Remove(pos int) LValue {
 		return LNil
 	}
 	larray := len(tb.array)
+	// trailing nil slots (left by t[#t] = nil) are not elements: the last element is the last non-nil one
+	for larray > 0 && tb.array[larray-1] == LNil {
+		larray--
+	}
+	tb.array = tb.array[:larray]
 	if larray == 0 {
 		return LNil
 	}
